@@ -103,8 +103,28 @@ def group (cl : List (String × Int)) (c : Int) : List String :=
 
 def nameOf (names : List String) (i : Nat) : String := names.getD i ""
 
+def digitVal (c : Char) : Option Nat :=
+  if 48 ≤ c.toNat ∧ c.toNat ≤ 57 then some (c.toNat - 48) else none
+
+def parseNatChars : List Char → Nat → Option Nat
+  | [], acc => some acc
+  | c :: cs, acc =>
+    match digitVal c with
+    | some d => parseNatChars cs (acc * 10 + d)
+    | none => none
+
+/-- `int(name)` on the strings `"{}".format(cluster_id)` produces for integer cluster ids: an
+optional minus sign and ASCII digits.  (Python's `int` also accepts surrounding blanks, `+`, `_`
+and non-ASCII digits; such names cannot come out of the loader and are rejected here.) -/
+def parseInt (s : String) : Option Int :=
+  match s.toList with
+  | [] => none
+  | c :: cs =>
+    if c = '-' then (if cs.isEmpty then none else (parseNatChars cs 0).map (fun n => -(n : Int)))
+    else (parseNatChars (c :: cs) 0).map (fun n => (n : Int))
+
 /-- `int(data[idx].name)` (0 stands in where `valid` fails) -/
-def cidOf (names : List String) (i : Nat) : Int := ((nameOf names i).toInt?).getD 0
+def cidOf (names : List String) (i : Nat) : Int := (parseInt (nameOf names i)).getD 0
 
 /-- `get_labels_table` without clusters: one record per labelled data point, then every data point
 whose name was not seen, as an outlier -/
@@ -168,7 +188,7 @@ def validClus (inp : Input) : Bool :=
   match inp.clusters with
   | none => true
   | some cl => (labelsOf inp.forest inp.outs).all (fun p =>
-      match (nameOf inp.names p.1).toInt? with
+      match parseInt (nameOf inp.names p.1) with
       | none => false
       | some c => cl.any (fun r => r.2 == c))
 
